@@ -46,6 +46,7 @@ struct World
   std::size_t seen[6] = {};
   bool sink_failed[6] = {};
   std::unique_ptr<fcppt::log::context> context;
+  unsigned level_formatters = 63; // bit l: the level stream of level l has its own (default) formatter
   Model model{NONE};
 
   struct Obj
@@ -257,7 +258,9 @@ struct World
       std::string expected;
       for (unsigned x : ob.path)
         expected += std::string(name_of(x)) + ": ";
-      expected += std::string(level_name(l)) + ": " + text + "\n";
+      // format::default_level: prefix "<level>: ", suffix "\n"; a level stream without a
+      // formatter of its own adds nothing
+      expected += (level_formatters & (1U << l)) != 0 ? std::string(level_name(l)) + ": " + text + "\n" : text;
       if (ob.user_formatter)
         expected = "<" + expected + ">";
       check_sinks_unchanged(n, l);
@@ -301,15 +304,21 @@ struct World
     }
     int const root = static_cast<int>(plan.cfg.getu("root") % 7);
     model = Model(root);
+    level_formatters = static_cast<unsigned>(plan.cfg.get("lsf", 63)) & 63U;
+    if (level_formatters != 63U)
+      ctx.probe("level_streams_without_formatter");
     {
       sim::fault::begin_op(sim::Op("setup"));
       sim::fault::Sut s;
       context = std::make_unique<fcppt::log::context>(
           to_level(root),
           fcppt::enum_::array_init<fcppt::log::level_stream_array>([this](fcppt::log::level const l) {
+            // a level stream's own formatter is optional: bit l of `lsf` says whether it has one
             return fcppt::log::level_stream(
                 *sink[static_cast<unsigned>(l)],
-                fcppt::log::format::optional_function(fcppt::log::format::default_level(l)));
+                (level_formatters & (1U << static_cast<unsigned>(l))) != 0
+                    ? fcppt::log::format::optional_function(fcppt::log::format::default_level(l))
+                    : fcppt::log::format::optional_function());
           }));
     }
     unsigned effective = 0;
@@ -387,6 +396,8 @@ void generate(sim::Rng &rng, sim::Plan &p, bool)
   if (faulty)
     p.cfg.set("faulty", 1);
   p.cfg.set("root", static_cast<long>(rng.below(7)));
+  if (rng.chance(1, 3))
+    p.cfg.set("lsf", static_cast<long>(rng.chance(1, 3) ? 0 : rng.below(64)));
   static char const *const names[] = {"set", "get", "obj_ctx", "obj_loc", "obj_parent", "obj_destroy", "level", "enabled", "log"};
   std::vector<std::string> bag;
   for (auto const *o : names)
